@@ -55,7 +55,7 @@ def main():
     m = {"version": 1, "setup_cmd": "./check setup",
          "hooks": {"guard": "verif", "enable": "go test -tags verif (the harness is always built with -tags verif)",
                    "baseline_off_cmd": "cd /repo && GOTOOLCHAIN=local GOFLAGS=-mod=mod GOPROXY=off GOSUMDB=off go1.26 test -json -vet=off -count=1 -timeout 25m ./...",
-                   "source_commits": [], "add_only": True},
+                   "source_commits": ["2985c5e"], "add_only": True},
          "engines": [{"name": "tla-conformance", "path": "/verif/check", "serves_properties": sorted(CLAIMS),
                       "kind_free_text": "explicit TLA+ specifications (spec/*.tla) model-checked with TLC; TLC-generated behaviours replayed into the real code by the Go harness; recorded NDJSON traces validated by TLC against the monitors"}],
          "checks": checks,
